@@ -233,9 +233,9 @@ struct World
    std::vector<Got> all;                               // everything handed over
    uint32 maxIn;
    std::vector<std::string> violations, drift, known;
-   uint64_t nPackets, nDeliveries, nCompressed;
+   uint64_t nPackets, nDeliveries, nCompressed, nMultiSourceCalls;
 
-   World(bool isMini, int sl, uint32 m, int nSenders, uint32 maxIncoming) : mini(isMini), slave(sl), mtu(m), ns(nSenders), comp(false), rxio(NULL), maxIn(maxIncoming), nPackets(0), nDeliveries(0), nCompressed(0)
+   World(bool isMini, int sl, uint32 m, int nSenders, uint32 maxIncoming) : mini(isMini), slave(sl), mtu(m), ns(nSenders), comp(false), rxio(NULL), maxIn(maxIncoming), nPackets(0), nDeliveries(0), nCompressed(0), nMultiSourceCalls(0)
    {
       packedUpTo.assign(ns + 1, 0); firstId.assign(ns + 1, 0); maybeHeld.assign(ns + 1, 0);
       tx.resize(ns + 1); txio.resize(ns + 1, NULL); sent.resize(ns + 1); net.resize(ns + 1); cnt.resize(ns + 1); order.resize(ns + 1); heldLevel.resize(ns + 1); garbled.resize(ns + 1);
@@ -264,7 +264,9 @@ struct World
       if (mini) M(tx[s])->_sendPacketIDCounter = v & 0xFFFFFF; else T(tx[s])->_sendMessageIDCounter = v;
       firstId[s] = mini ? (v & 0xFFFFFF) : v; return true;
 #else
-      (void) v; firstId[s] = 0; return false;
+      // public API only: the counters start at 0; the id fields of the packets the sender writes are rewritten to what a sender whose
+      // counter started at v would have written (nothing else in the packets changes)
+      firstId[s] = mini ? (v & 0xFFFFFF) : v; return true;
 #endif
    }
    std::vector<char> maybeHeld;
@@ -301,6 +303,14 @@ struct World
       if (getenv("TUN_DEBUG")) fprintf(stderr, "Out s=%d mode=%d level=%d wrote=%zu held=%d\n", s, mode, level, txio[s]->outq.size(), (int) Held(s));
       for (size_t i=0; i<txio[s]->outq.size(); i++)
       {
+#ifndef TUN_PRIVATE_STATE
+         if (firstId[s] != 0)
+         {
+            std::string & q = txio[s]->outq[i];
+            if (mini) { if (q.size() >= MINI_PH) { const uint32 w = Word(q, 8); DefaultEndianConverter::Export((w & 0xFF000000u) | ((w + firstId[s]) & 0xFFFFFFu), &q[8]); } }
+            else { size_t o = 0; while(o + TUN_H <= q.size()) { const uint32 id = Word(q, o + 8) + firstId[s]; const uint32 chunk = Word(q, o + 16); DefaultEndianConverter::Export(id, &q[o + 8]); o += TUN_H + chunk; } }
+         }
+#endif
          const std::string & p = txio[s]->outq[i];
          if (mini)
          {
@@ -368,13 +378,21 @@ struct World
    std::vector<uint32> firstId;                         // per sender: the id of its first Message
 
    // the network hands a copy of packet k (1-based) of sender s to the receiver's gateway: one DoInput call; returns what was handed over
-   std::vector<Got> Deliver(int s, int k)
+   std::vector<Got> Deliver(int s, int k) {Arrive(s, k); return Drain(s, k);}
+   // a copy of packet k of sender s arrives in the receiver's socket (the PacketDataIO reports every packet's own source); no call yet
+   void Arrive(int s, int k)
    {
       Packet p; p.bytes = net[s][k - 1]; p.src = s; rxio->inq.push_back(p);
       cnt[s][k - 1]++; order[s].push_back(k);
+   }
+   // ONE DoInput() call: reads everything that waits; (s, k) = the last packet that arrived, for the diagnosis
+   std::vector<Got> Drain(int s, int k)
+   {
+      std::set<int> srcs; for (size_t i=0; i<rxio->inq.size(); i++) srcs.insert(rxio->inq[i].src);
+      if (srcs.size() >= 2) nMultiSourceCalls++;
       rcv.got.clear();
       (void) rx()->DoInput(rcv);
-      if (!rxio->inq.empty()) {D("the receiving gateway did not read the packet"); rxio->inq.clear();}
+      if (!rxio->inq.empty()) {D("the receiving gateway did not read all the packets that waited"); rxio->inq.clear();}
       std::vector<Got> r = rcv.got;
       for (size_t i=0; i<r.size(); i++) { nDeliveries++; all.push_back(r[i]); Clause1(r[i], s, k); }
       return r;
@@ -454,6 +472,7 @@ struct World
 
    bool Quiet() const
    {
+      if (!rxio->inq.empty()) return false;
       for (int s=1; s<=ns; s++)
       {
          if (tx[s]()->HasBytesToOutput()) return false;
@@ -568,7 +587,8 @@ static void ReplayOne(const Cfg & c, const mj::Value & beh, mj::Value & rep, uin
       {
          if (a == "Send") (void) w.Send(s, (uint32) st["z"].i() * U);
          else if (a == "Out") { const std::string mode = st["mode"].str(); (void) w.Out(s, (mode == "all") ? 0 : ((mode == "one") ? 1 : 2), c.mini ? (int) st["lvl"].i() : 0); }
-         else if (a == "Deliver") { const int k = (int) st["k"].i(); if ((k >= 1)&&(k <= (int) w.net[s].size())&&((!c.perfect)||((w.cnt[s][k - 1] == 0)&&((k == 1)||(w.cnt[s][k - 2] == 1))))) (void) w.Deliver(s, k); }
+         else if ((a == "Deliver")||(a == "Arrive")) { const int k = (int) st["k"].i(); if ((k >= 1)&&(k <= (int) w.net[s].size())&&((!c.perfect)||((w.cnt[s][k - 1] == 0)&&((k == 1)||(w.cnt[s][k - 2] == 1))))) { w.Arrive(s, k); if (a == "Deliver") (void) w.Drain(s, k); } }
+         else if (a == "Drain") (void) w.Drain(s, 0);
          if (!w.violations.empty()) break;
          continue;
       }
@@ -646,11 +666,19 @@ static void ReplayOne(const Cfg & c, const mj::Value & beh, mj::Value & rep, uin
          }
 #endif
       }
-      else if (a == "Deliver")
+      else if (a == "Arrive")
       {
          const int k = (int) st["k"].i();
          if ((k < 1)||(k > (int) w.net[s].size())) {w.D(at + "no such packet"); stop = true; continue;}
-         const std::vector<Got> g = w.Deliver(s, k);
+         w.Arrive(s, k);
+      }
+      else if ((a == "Deliver")||(a == "Drain"))
+      {
+         const bool drainOnly = (a == "Drain");
+         const int k = drainOnly ? 0 : (int) st["k"].i();
+         if ((!drainOnly)&&((k < 1)||(k > (int) w.net[s].size()))) {w.D(at + "no such packet"); stop = true; continue;}
+         if (!drainOnly) w.Arrive(s, k);
+         const std::vector<Got> g = w.Drain(s, k);
          const mj::Value & dl = st["dl"];
          // expected buffers, as bytes
          bool same = (g.size() == dl.size());
@@ -680,7 +708,7 @@ static void ReplayOne(const Cfg & c, const mj::Value & beh, mj::Value & rep, uin
             w.D(d); stop = true;
          }
 #ifdef TUN_PRIVATE_STATE
-         if ((!c.mini)&&(!stop))
+         if ((!c.mini)&&(!stop)&&(!drainOnly))
          {
             // the ReceiveState of source s, found by walking the table (whatever it is keyed by)
             const PacketTunnelIOGateway * r = World::T(w.rx);
@@ -705,10 +733,11 @@ static void ReplayOne(const Cfg & c, const mj::Value & beh, mj::Value & rep, uin
    {
       // the code left the behaviour: bring the perfect network to rest so that clause 2 can still be judged
       for (int s=1; s<=c.ns; s++) { int gd = 0; while(((w.tx[s]()->HasBytesToOutput())||(w.Held(s)))&&(gd++ < 1000)) (void) w.Out(s, 0, 0); }
+      if (!w.rxio->inq.empty()) (void) w.Drain(1, 0);
       for (int s=1; s<=c.ns; s++) for (size_t k=0; (k<w.net[s].size())&&(w.violations.empty()); k++) if (w.cnt[s][k] == 0) (void) w.Deliver(s, (int) k + 1);
    }
    if ((c.perfect)&&(w.violations.empty())&&(w.Quiet())) {w.Clause2(idOfFirst); tot[4]++;}
-   tot[1] += w.nPackets; tot[2] += w.nDeliveries; tot[3] += w.nCompressed;
+   tot[1] += w.nPackets; tot[2] += w.nDeliveries; tot[3] += w.nCompressed; tot[7] += w.nMultiSourceCalls;
    rep = mj::Value::Obj(); rep.set("behaviour", beh["id"]).set("slave", mj::Value::Str(SLN[c.slave]));
    if (!w.violations.empty()) rep.set("violations", Strs(w.violations));
    if (!w.drift.empty()) rep.set("drift", Strs(w.drift));
@@ -735,7 +764,6 @@ static int Replay(const char * in, const char * out)
    c.maxin = cv.has("maxin") ? cv["maxin"].i() : -1; c.slave = SlaveByName(cv["slave"].str()); c.idbase = (uint32) cv["idbase"].i(); c.firstid = cv["firstid"].i(); c.idspace = cv["idspace"].i(); c.comp = cv["compressible"].truthy();
    if ((c.slave < 0)||(c.unit == 0)||(c.idspace <= 0)) {fprintf(stderr, "bad config\n"); return 3;}
    g_addrMode = (int) cv["addrmode"].i();
-   if (!PRIVATE_STATE) c.idbase = 0;      // the id counters cannot be set through the public API
    FILE * fo = fopen(out, "w"); if (!fo) return 3;
    uint64_t tot[8] = {0, 0, 0, 0, 0, 0, 0, 0}; uint64_t nb = 0, followed = 0, drifted = 0, violated = 0, knownHits = 0;
    for (size_t i=1; i<lines.size(); i++)
@@ -751,7 +779,7 @@ static int Replay(const char * in, const char * out)
    s.set("summary", mj::Value::Bool(true)).set("behaviours", mj::Value::Int((int64_t) nb)).set("followed", mj::Value::Int((int64_t) followed)).set("drifted", mj::Value::Int((int64_t) drifted)).set("violated", mj::Value::Int((int64_t) violated))
     .set("known", mj::Value::Int((int64_t) knownHits)).set("steps", mj::Value::Int((int64_t) tot[0])).set("packets", mj::Value::Int((int64_t) tot[1])).set("deliveries", mj::Value::Int((int64_t) tot[2]))
     .set("compressed_packets", mj::Value::Int((int64_t) tot[3])).set("clause2_judged", mj::Value::Int((int64_t) tot[4])).set("slave", mj::Value::Str(SLN[c.slave]))
-    .set("private_state", mj::Value::Bool(PRIVATE_STATE)).set("shared_split_packets_perfect", mj::Value::Int((int64_t) tot[5])).set("shared_split_packets_faulty", mj::Value::Int((int64_t) tot[6]));
+    .set("private_state", mj::Value::Bool(PRIVATE_STATE)).set("multi_source_calls", mj::Value::Int((int64_t) tot[7])).set("shared_split_packets_perfect", mj::Value::Int((int64_t) tot[5])).set("shared_split_packets_faulty", mj::Value::Int((int64_t) tot[6]));
    WriteLine(fo, s); fclose(fo);
    return 0;
 }
@@ -882,8 +910,9 @@ static void ExploreOne(uint64_t seed, uint32 iter, uint32 iters, uint32 mtuLo, u
          if ((!perfect)&&(g.R(3) == 0)) pi = g.R((uint32) muscleMin(pending.size(), (size_t) 4));
          const std::pair<int,int> pk = pending[pi]; pending.erase(pending.begin() + pi);
          mj::Value e = E("in"); e.set("s", mj::Value::Int(pk.first)).set("k", mj::Value::Int(pk.second)).set("len", mj::Value::Int((int64_t) w.net[pk.first][pk.second - 1].size())); if (tr) tr->Ev(e);
-         const std::vector<Got> got = w.Deliver(pk.first, pk.second);
-         LogDeliveries(w, got, tr, lastN);
+         // a third of the packets wait in the receiver's socket (up to 4) for a DoInput() call that reads several packets of several senders
+         w.Arrive(pk.first, pk.second);
+         if ((w.rxio->inq.size() >= 4)||(g.R(3) != 0)) { const std::vector<Got> got = w.Drain(pk.first, pk.second); LogDeliveries(w, got, tr, lastN); }
       }
       if (!w.violations.empty()) break;
    }
@@ -902,9 +931,10 @@ static void ExploreOne(uint64_t seed, uint32 iter, uint32 iters, uint32 mtuLo, u
          size_t pi = 0; if ((!perfect)&&(g.R(3) == 0)) pi = g.R((uint32) muscleMin(pending.size(), (size_t) 4));
          const std::pair<int,int> pk = pending[pi]; pending.erase(pending.begin() + pi);
          mj::Value e = E("in"); e.set("s", mj::Value::Int(pk.first)).set("k", mj::Value::Int(pk.second)).set("len", mj::Value::Int((int64_t) w.net[pk.first][pk.second - 1].size())); if (tr) tr->Ev(e);
-         const std::vector<Got> got = w.Deliver(pk.first, pk.second);
-         LogDeliveries(w, got, tr, lastN);
+         w.Arrive(pk.first, pk.second);
+         if ((pending.empty())||(w.rxio->inq.size() >= 4)||(g.R(3) != 0)) { const std::vector<Got> got = w.Drain(pk.first, pk.second); LogDeliveries(w, got, tr, lastN); }
       }
+      if ((!w.rxio->inq.empty())&&(w.violations.empty())) { const std::vector<Got> got = w.Drain(1, 0); LogDeliveries(w, got, tr, lastN); }
    }
    for (int s=1; s<=ns; s++) for (size_t k=0; k<w.net[s].size(); k++) if (w.net[s][k].size() > realMtu) w.D("sender " + I(s) + " wrote a packet of " + I((int64_t) w.net[s][k].size()) + " bytes, MTU " + I(realMtu));
    if ((perfect)&&(w.violations.empty()))
@@ -916,7 +946,7 @@ static void ExploreOne(uint64_t seed, uint32 iter, uint32 iters, uint32 mtuLo, u
          if (tr) tr->Ev(E("quiet"));
       }
    }
-   tot[0]++; tot[1] += w.nPackets; tot[2] += w.nDeliveries; tot[3] += w.nCompressed;
+   tot[0]++; tot[1] += w.nPackets; tot[2] += w.nDeliveries; tot[3] += w.nCompressed; tot[8] += w.nMultiSourceCalls;
    uint64_t nm = 0; for (int s=1; s<=ns; s++) nm += w.sent[s].size(); tot[5] += nm;
    if (!perfect) { for (int s=1; s<=ns; s++) for (size_t k=0; k<w.cnt[s].size(); k++) { if (w.cnt[s][k] == 0) tot[6]++; if (w.cnt[s][k] > 1) tot[7]++; } }
    rep = mj::Value::Obj();
@@ -932,7 +962,7 @@ static int Explore(uint32 iters, uint64_t seed, const char * out, const char * t
 {
    FILE * fo = fopen(out, "w"); if (!fo) return 3;
    TraceOut tr; tr.f = fopen(trace, "w"); if (!tr.f) {fclose(fo); return 3;}
-   uint64_t tot[8] = {0, 0, 0, 0, 0, 0, 0, 0}; uint64_t violated = 0, drifted = 0, knownHits = 0, traces = 0; mj::Value sample; std::set<uint32> mtus;
+   uint64_t tot[10] = {0, 0, 0, 0, 0, 0, 0, 0, 0, 0}; uint64_t violated = 0, drifted = 0, knownHits = 0, traces = 0; mj::Value sample; std::set<uint32> mtus;
    const char * only = getenv("TUN_ONLY");   // debugging aid: run one iteration only
    for (uint32 i=0; i<iters; i++)
    {
@@ -951,7 +981,7 @@ static int Explore(uint32 iters, uint64_t seed, const char * out, const char * t
     .set("compressed_packets", mj::Value::Int((int64_t) tot[3])).set("clause2_judged", mj::Value::Int((int64_t) tot[4])).set("messages", mj::Value::Int((int64_t) tot[5]))
     .set("packets_lost", mj::Value::Int((int64_t) tot[6])).set("packets_duplicated", mj::Value::Int((int64_t) tot[7]))
     .set("violated", mj::Value::Int((int64_t) violated)).set("drifted", mj::Value::Int((int64_t) drifted)).set("known", mj::Value::Int((int64_t) knownHits))
-    .set("private_state", mj::Value::Bool(PRIVATE_STATE)).set("distinct_mtus", mj::Value::Int((int64_t) mtus.size())).set("mtu_sweep_complete", mj::Value::Bool(iters / 12 >= ((mtuHi > mtuLo) ? (mtuHi - mtuLo + 1) : 1)))
+    .set("private_state", mj::Value::Bool(PRIVATE_STATE)).set("multi_source_calls", mj::Value::Int((int64_t) tot[8])).set("distinct_mtus", mj::Value::Int((int64_t) mtus.size())).set("mtu_sweep_complete", mj::Value::Bool(iters / 12 >= ((mtuHi > mtuLo) ? (mtuHi - mtuLo + 1) : 1)))
     .set("traces_written", mj::Value::Int((int64_t) traces)).set("trace_lines", mj::Value::Int((int64_t) tr.lines)).set("sample", sample);
    WriteLine(fo, s); fclose(fo);
    return 0;
@@ -1021,14 +1051,61 @@ static int Directed(const char * out)
       if (w.nCompressed == 0) w.D("expected a deflated packet");
       Case(fo, "F32-c", w, "mini tunnel, level 6 throughout: Messages of 3 and 0 bytes held (deflating does not help), then 0, 140, 0 bytes added (now it does)", !w.violations.empty());
    }
-#ifdef TUN_PRIVATE_STATE
+   // F44 (open known finding): a slave MessageIOGateway with a zlib encoding deflates every Message DEPENDENTLY on its predecessors
+   // (AreOutgoingMessagesIndependent() is false by default); under a tunnel a lost Message leaves the receiver's inflater with another
+   // history than the sender's deflater had, and later Messages that refer back into the lost one inflate WITHOUT ERROR to other bytes
+   for (int mini=0; mini<2; mini++)
+   {
+      const uint32 MTU = 1100; const IPAddressAndPort from = AddrOf(1);
+      AbstractMessageIOGatewayRef tx, rx;
+      if (mini) { tx.SetRef(new MiniPacketTunnelIOGateway(AbstractMessageIOGatewayRef(new MessageIOGateway(MUSCLE_MESSAGE_ENCODING_ZLIB_6)), MTU)); rx.SetRef(new MiniPacketTunnelIOGateway(AbstractMessageIOGatewayRef(new MessageIOGateway(MUSCLE_MESSAGE_ENCODING_ZLIB_6)), MTU)); }
+           else { tx.SetRef(new PacketTunnelIOGateway(AbstractMessageIOGatewayRef(new MessageIOGateway(MUSCLE_MESSAGE_ENCODING_ZLIB_6)), MTU)); rx.SetRef(new PacketTunnelIOGateway(AbstractMessageIOGatewayRef(new MessageIOGateway(MUSCLE_MESSAGE_ENCODING_ZLIB_6)), MTU)); }
+      ScriptIO * a = new ScriptIO(MTU); ScriptIO * b = new ScriptIO(MTU); tx()->SetDataIO(DataIORef(a)); rx()->SetDataIO(DataIORef(b));
+      std::vector<std::string> sentKeys; std::vector<std::vector<std::string> > pkts; std::string pay(200, 'x');
+      for (uint32 i=0; i<200; i++) pay[i] = (char) ('a' + (Pat(1, 1, i, false) % 20));
+      for (int n=1; n<=8; n++)
+      {
+         // every second Message carries its predecessor's payload again
+         if (n % 2) for (uint32 i=0; i<200; i++) pay[i] = (char) ('a' + (Pat(1, n, i, false) % 20));
+         MessageRef m = GetMessageFromPool(MSG_WHAT + n); (void) m()->AddData("d", B_RAW_TYPE, pay.data(), (uint32) pay.size());
+         sentKeys.push_back(Flat(*m()));
+         (void) tx()->AddOutgoingMessage(m); int gd = 0; while((tx()->HasBytesToOutput())&&(gd++ < 100)) (void) tx()->DoOutput();
+         pkts.push_back(a->outq); a->outq.clear();
+      }
+      // the network loses Message 3 entirely and hands over everything else once, in order
+      Receiver rc; rc.slave = SL_MSG; int altered = 0, handed = 0; std::string first;
+      for (size_t n=0; n<pkts.size(); n++) if (n != 2) for (size_t j=0; j<pkts[n].size(); j++) { Packet p; p.bytes = pkts[n][j]; p.src = 1; b->inq.push_back(p); (void) rx()->DoInput(rc); }
+      for (size_t g=0; g<rc.got.size(); g++) { handed++; if (std::find(sentKeys.begin(), sentKeys.end(), rc.got[g].key) == sentKeys.end()) { altered++; if (first.empty()) first = "handed-over Message #" + I((int64_t) g + 1) + " (" + I((int64_t) rc.got[g].key.size()) + " bytes)"; } }
+      World w(mini != 0, SL_MSG, MTU, 1, MUSCLE_NO_LIMIT);
+      if (altered > 0) w.K("F44: slave MessageIOGateway with MUSCLE_MESSAGE_ENCODING_ZLIB_6 on both sides, Message 3 of 8 lost: " + I(altered) + " of the " + I(handed) + " Messages handed over afterwards are not byte-identical to any sent Message (first: " + first + "): dependent deflate, the inflater never reports the missing history");
+      Case(fo, mini ? "F44-mini" : "F44-tunnel", w, "zlib-encoding slave under the tunnel, 8 Messages of 200 payload bytes (every second one repeats its predecessor's payload), Message 3 lost, the rest handed over once in order", altered > 0);
+   }
+   // several senders' packets read by ONE DoInput() call: every packet has its own source address.  Senders 1 and 2 (same message id,
+   // same size) each send a two-fragment Message; head of 1 and tail of 2 wait together: nothing may be handed over; then everything
+   // arrives in one call, interleaved: both Messages, each attributed to its sender
+   for (int slave=SL_NONE; slave<=SL_EXACT; slave++)
+   {
+      World w(false, slave, 24 + 60, 2, MUSCLE_NO_LIMIT);
+      (void) w.Send(1, 100); (void) w.Send(2, 100); (void) w.Out(1, 0, 0); (void) w.Out(2, 0, 0);
+      w.Arrive(1, 1); w.Arrive(2, 2); const std::vector<Got> g = w.Drain(2, 2);
+      if (!g.empty()) w.D("head of sender 1 + tail of sender 2 in one call: " + I((int64_t) g.size()) + " Messages handed over, expected none");
+      World w2(false, slave, 24 + 60, 2, MUSCLE_NO_LIMIT); std::vector<uint32> f(3, 0);
+      (void) w2.Send(1, 100); (void) w2.Send(2, 100); (void) w2.Out(1, 0, 0); (void) w2.Out(2, 0, 0);
+      w2.Arrive(1, 1); w2.Arrive(2, 1); w2.Arrive(1, 2); w2.Arrive(2, 2); (void) w2.Drain(2, 2);
+      w2.Clause2(f);
+      for (size_t i=0; i<w2.violations.size(); i++) w.V(w2.violations[i]);
+      Case(fo, (slave == SL_NONE) ? "two-sources-one-call" : "two-sources-one-call-exact", w, "two senders with the same message id and size, their fragments read by one DoInput() call", !w.violations.empty());
+   }
+   // (public-API build: the id fields of the written packets are rewritten instead of setting the counters)
    // message-id wrap-around at 2^32 (tunnel) and packet-id wrap-around at 2^24 (mini tunnel), with compression on (the id shares a word with the level)
    {
       World w(false, SL_EXACT, 60, 1, MUSCLE_NO_LIMIT); std::vector<uint32> f(2, 0xFFFFFFFEu);
       (void) w.SetFirstId(1, 0xFFFFFFFEu);
       for (int i=0; i<5; i++) (void) w.Send(1, 50 + 20 * i);
       PerfectRun(w, f);
+#ifdef TUN_PRIVATE_STATE
       if (World::T(w.tx[1])->_sendMessageIDCounter != 3) w.D("message id after the wrap is " + I(World::T(w.tx[1])->_sendMessageIDCounter));
+#endif
       Case(fo, "wrap-2^32", w, "5 Messages with ids 2^32-2 .. 2, MTU 60, perfect network", false);
    }
    for (int lvl=0; lvl<=6; lvl+=6)
@@ -1038,10 +1115,13 @@ static int Directed(const char * out)
       for (int i=0; i<5; i++) { (void) w.Send(1, 120 + i); (void) w.Out(1, 0, lvl); }
       for (size_t k=0; k<w.net[1].size(); k++) (void) w.Deliver(1, (int) k + 1);
       w.Clause2(f);
+#ifdef TUN_PRIVATE_STATE
       if (World::M(w.tx[1])->_sendPacketIDCounter != 3) w.D("packet id after the wrap is " + I(World::M(w.tx[1])->_sendPacketIDCounter));
+#endif
       if ((lvl > 0)&&(w.nCompressed != 5)) w.D("expected 5 deflated packets, saw " + I((int64_t) w.nCompressed));
       Case(fo, lvl ? "wrap-2^24-deflated" : "wrap-2^24", w, "5 packets with ids 2^24-2 .. 2, perfect network", false);
    }
+#ifdef TUN_PRIVATE_STATE
    // The hole of the design (an ASSUMPTION of the evidence, not a claim): after a full wrap of the 32-bit message id, with every
    // fragment in between lost and equal sizes, the head of an old Message and the tail of a new one are combined.  Reproduced by
    // winding the counter back (= 2^32 Messages later).  Reported as information only.
@@ -1056,7 +1136,7 @@ static int Directed(const char * out)
       WriteLine(fo, r);
    }
 #else
-   { mj::Value r = mj::Value::Obj(); r.set("case", mj::Value::Str("wrap-around")).set("reproduced", mj::Value::Bool(false)).set("skipped", mj::Value::Bool(true)).set("note", mj::Value::Str("id wrap-around cases need the private id counters: skipped in the public-API build")); WriteLine(fo, r); }
+   { mj::Value r = mj::Value::Obj(); r.set("case", mj::Value::Str("id-collision-hole")).set("reproduced", mj::Value::Bool(false)).set("skipped", mj::Value::Bool(true)).set("note", mj::Value::Str("needs the private id counter: skipped in the public-API build")); WriteLine(fo, r); }
 #endif
    mj::Value s = mj::Value::Obj(); s.set("summary", mj::Value::Bool(true)).set("private_state", mj::Value::Bool(PRIVATE_STATE)); WriteLine(fo, s);
    fclose(fo);
